@@ -73,6 +73,8 @@ def run_app(num_points):
 
 def stage(ctx, quick=False):
     ctx.model("Lorenz", MCFG)
+    if os.environ.get("VERIF_IMPORT_STYLE") == "package":
+        return          # the script imports the library in its own (flat) style: its calls are captured in the first interpreter only
     rec = S.Rec()
     sizes = (6, 9, 16) if quick else (5, 6, 9, 16, 25, 40)
     ncalls = 0
